@@ -201,6 +201,7 @@ type StepObs struct {
 	// both: the client store after the step (after a rejected keeper update: the store the failed call left behind)
 	Store []JEntry `json:"store"`
 	Panic string   `json:"panic,omitempty"`
+	Err   string   `json:"err,omitempty"` // debugging aid only, never compared
 }
 
 type Result struct {
@@ -221,13 +222,20 @@ func tns(t time.Time) string {
 
 func hx(b []byte) string { return hlib.Hex(b) }
 
+var lastErr string
+
 func classify(f func() error) (int, string) {
 	var err error
+	lastErr = ""
 	p, val := hlib.Catch(func() { err = f() })
 	if p {
 		return 2, val
 	}
 	if err != nil {
+		lastErr = err.Error()
+		if len(lastErr) > 160 {
+			lastErr = lastErr[len(lastErr)-160:]
+		}
 		return 1, ""
 	}
 	return 0, ""
@@ -530,6 +538,7 @@ func (r *run) step(st Step) StepObs {
 			h2 := hdr
 			var pv string
 			o.KeeperClass, pv = classify(func() error { return k.UpdateClient(bctx, clientName, &h2) })
+			o.Err = lastErr
 			if pv != "" {
 				o.Panic = pv
 			}
@@ -555,6 +564,7 @@ func (r *run) step(st Step) StepObs {
 			}
 			return cs.VerifyPacketCommitment(ctx, store, e.cdc, st.VHeight.height(), proof, fxSrc, fxDst, st.Seq, value)
 		})
+		o.Err = lastErr
 		// oracle verdicts: the real proto decoding and the real ICS-23 verification against the root stored at that height
 		var mp commitmenttypes.MerkleProof
 		if proof != nil {
